@@ -28,6 +28,10 @@ SHAPES = {
     # wide floating types: bound as u128 where they are 16 bytes, as f64 where `long double` is 8 bytes (msvc)
     "wide-floats": ("c", "struct w1 { long double ld; int i; };\nstruct w2 { struct w1 in; long double arr[2]; };\nstruct w3 { __float128 q; };\n"),
     "wide-floats-msvc": ("c", "struct w1 { long double ld; int i; };\nstruct w2 { struct w1 in; long double arr[2]; };\n"),
+    # SIMD vectors: of builtins and of typedef'd elements (the element decides float-ness)
+    "vectors": ("c", "typedef float float32_t;\ntypedef float32_t float32x4_t __attribute__((vector_size(16)));\n"
+                     "typedef int int32x4_t __attribute__((vector_size(16)));\ntypedef short lane_t;\ntypedef lane_t lanes8_t __attribute__((vector_size(16)));\n"
+                     "struct Particle { float32x4_t pos; int id; };\nstruct Control { int32x4_t mask; lanes8_t lanes; };\nstruct Both { struct Particle p; struct Control c; };\n"),
     "ptrs": ("c", "struct p1 { int *p; };\nstruct p2 { struct p1 in; void (*cb)(int); };\n"),
     "bigarr": ("c", "struct b1 { int a[33]; };\nstruct b2 { int a[32]; };\nstruct b3 { struct b1 in; char c; };\nstruct b4 { float f[40]; };\n"),
     "nested-arrays": ("c", "struct n1 { int rows[2][40]; };\ntypedef unsigned char block_t[48];\nstruct n2 { block_t b[3]; int small[2][3]; };\n"
